@@ -225,6 +225,7 @@ class Interp:
         self.extern_used = set()
         self.trace = []  # ghost event trace (events put on queues / yielded at top level)
         self.ghost = {}  # ghost variables (DESIGN 1.3)
+        self.top_contract = None  # the contract (possibly a variant) of the function under verification
         self.abstract_log = []  # (fq, result, raised class name) of every abstract call, in order (for native replay stubs)
         self.loop_counter = {}
         from . import builtins_ as B
@@ -1169,13 +1170,13 @@ class Interp:
             fenv = fenv.parent
         if fenv is None:
             return None
-        c = self.reg.get(fenv.fn.fq)
+        c = self.top_contract if (fenv.fn.fq == self.top_target and self.top_contract is not None) else self.reg.get(fenv.fn.fq)
         if c is None or (fenv.fn.fq != self.top_target and not c.inline):
             return None
         return c.invariants.get(ordinal)
 
     def unroll_bound(self, env):
-        c = self.reg.get(self.top_target) if self.top_target else None
+        c = self.top_contract or (self.reg.get(self.top_target) if self.top_target else None)
         return (c.unroll if c is not None and c.unroll is not None else 4)
 
     def x_For(self, s, env):
@@ -1667,7 +1668,7 @@ class Interp:
         """Ghost monitor: the contract of the function under verification may update ghost state at each of its yields."""
         if fenv.fn is None or fenv.fn.fq != self.top_target or self.depth != 0:
             return
-        c = self.reg.get(self.top_target)
+        c = self.top_contract or self.reg.get(self.top_target)
         if c is None or not c.yield_effect:
             return
         e = Env(parent=fenv, module=fenv.module)
@@ -1854,6 +1855,12 @@ class Interp:
         a = truthy(self.eval(n.args[0], env))
         if a is False:
             return True
+        if not isinstance(a, bool) and any(isinstance(x, ast.Subscript) for x in ast.walk(n.args[1])):
+            # the consequent looks something up that may only be defined under the antecedent: evaluate it on the paths where the antecedent holds
+            if not self.path.branch(a):
+                return True
+            b = truthy(self.eval(n.args[1], env))
+            return b if isinstance(b, bool) else SBool(b)
         b = truthy(self.eval(n.args[1], env))
         r = z_implies(a, b)
         return r if isinstance(r, bool) else SBool(r)
